@@ -1,6 +1,7 @@
 SPECIFICATION Spec
 CONSTANTS
   Kinds = {"good", "noname", "badlabel", "badglyph", "compressed", "badsilf", "nocmap", "nogloc", "badlz4", "badlz4s", "hiddenfeat", "badfeat", "badfeat2", "badsill", "underflow", "emptyname", "emptyglyf"}
+  OptSet = {0, 1, 2, 3, 4, 5, 6, 7}
   Srcs = {"ops"}
   Texts = {0, 1}
   ClientOps = {"label", "face_query", "featval", "destroy_fval", "make_font", "destroy_font", "make_seg", "shape", "query_seg", "justify", "destroy_seg"}
